@@ -37,7 +37,15 @@ var castagnoli = crc32.MakeTable(crc32.Castagnoli)
 
 // ---------------------------------------------------------------- compact byte strings
 
-func xs(x uint16) uint16 { x ^= x << 7; x ^= x >> 9; x ^= x << 8; return x }
+// 16-bit Galois LFSR, taps 0xB400 (the same generator as CorrC13.lfsr)
+func xs(x uint16) uint16 {
+	l := x & 1
+	x >>= 1
+	if l == 1 {
+		x ^= 0xB400
+	}
+	return x
+}
 
 func prngBytes(x uint16, n int) []byte {
 	b := make([]byte, 0, n+1)
@@ -214,6 +222,7 @@ type caseSpec struct {
 	// either fixed lengths (corpus) or generated from the writer's position
 	fixed   [][]int
 	isFixed bool
+	small   bool // only small records: no page is ever filled
 	corpus  string
 }
 
@@ -278,9 +287,12 @@ func main() {
 	f := gallina.ParseFlags()
 	meta := gallina.NewMeta("C13", f.Seed, f.Tier)
 	meta.Rule = "one case = one real WAL directory written by wlog.WL.Log and read by wlog.Reader and wlog.LiveReader; fixed corpus of boundary layouts first, then logs generated from the writer's own position (LastSegmentAndOffset): record lengths aimed at page remainder -8..+2, segment remainder -1..+1, k pages -1..+1, larger than a segment, plus small/medium records, x compression {none,snappy,zstd} x pagesPerSegment {1,2,3,4} x close/no close x 6 release patterns for the live reader; non-trivial = the log has a record split into fragments, a zero-padded page or more than one segment; distinct by (compression, pps, batch record lengths, cut pattern)"
-	cf := &gallina.CaseFile{Dir: f.Out, Type: "case", PerShard: 12,
+	cf := &gallina.CaseFile{Dir: f.Out, Type: "case", PerShard: 9,
 		Preamble: "From Coq Require Import List ZArith NArith.\nFrom Verif Require Import model.Wal corr.CorrC13.\nImport ListNotations.\nOpen Scope Z_scope.\n",
 		Footer:   gallina.StdFooter}
+	if f.Tier == "thorough" {
+		cf.PerShard = 40
+	}
 	scratch, err := os.MkdirTemp(f.Out, "wal")
 	if err != nil {
 		panic(err)
@@ -289,9 +301,9 @@ func main() {
 
 	id := 0
 	seen := map[string]bool{}
-	budget := 150 * 1024
+	budget := 70 * 1024
 	if f.Tier == "thorough" {
-		budget = 300 * 1024
+		budget = 200 * 1024
 	}
 
 	runCase := func(idx int, cs caseSpec) {
@@ -343,6 +355,7 @@ func main() {
 			}
 		} else {
 			nsteps := 1 + r.Intn(6)
+			small := cs.small
 			for s := 0; s < nsteps; s++ {
 				_, off, err := w.LastSegmentAndOffset()
 				if err != nil {
@@ -356,6 +369,9 @@ func main() {
 				t := r.Intn(10)
 				if s == 0 && r.Chance(1, 2) {
 					t = 1
+				}
+				if small {
+					t = 6 + r.Intn(4)
 				}
 				switch t {
 				case 0, 1, 2:
@@ -384,13 +400,13 @@ func main() {
 				if n < 0 {
 					n = 0
 				}
-				if total+n > budget {
+				if total+n > budget || (small && total+n > 1500) {
 					n = int(r.Range(0, 40))
 				}
 				b := [][]byte{genRecord(r, n, cs.compr, exact)}
 				for k := r.Intn(4); k > 0; k-- { // more records in the same Log call
 					m := int(r.Range(0, 24))
-					if r.Chance(1, 8) && total+n+4000 < budget {
+					if r.Chance(1, 8) && total+n+4000 < budget && !small {
 						m = int(r.Range(100, 4000))
 					}
 					b = append(b, genRecord(r, m, cs.compr, false))
@@ -455,21 +471,21 @@ func main() {
 		// oracle tables
 		crcSeen := map[string]bool{}
 		var crcG []string
-		addCrc := func(part []byte) {
+		addCrc := func(seg, off int, part []byte) {
 			if crcSeen[string(part)] {
 				return
 			}
 			crcSeen[string(part)] = true
-			crcG = append(crcG, fmt.Sprintf("(%d, %s, %d%%N)", len(part), compact(part), crc32.Checksum(part, castagnoli)))
+			crcG = append(crcG, fmt.Sprintf("(KFile %d %d %d, %d%%N)", seg, off, len(part), crc32.Checksum(part, castagnoli)))
 		}
 		nfrag, nsplit, npad, nzero := 0, 0, 0, 0
 		var fragOffs [][]int
-		for _, b := range files {
+		for si, b := range files {
 			fr, pads, _ := parseSeg(b)
 			npad += pads
 			var offs []int
 			for _, x := range fr {
-				addCrc(b[x.off+hdr : x.off+hdr+x.length])
+				addCrc(si, x.off+hdr, b[x.off+hdr:x.off+hdr+x.length])
 				nfrag++
 				if x.typ != 1 {
 					nsplit++
@@ -485,7 +501,7 @@ func main() {
 		if cs.compr != compression.None {
 			encSeen := map[string]bool{}
 			eb := compression.NewSyncEncodeBuffer()
-			for _, rec := range recs {
+			for ri, rec := range recs {
 				if len(rec) == 0 || encSeen[string(rec)] {
 					continue
 				}
@@ -495,7 +511,7 @@ func main() {
 					panic(err)
 				}
 				e = append([]byte{}, e...)
-				encG = append(encG, fmt.Sprintf("(%d, %s, (%d, %s))", len(rec), compact(rec), len(e), compact(e)))
+				encG = append(encG, fmt.Sprintf("(%d, (%d, %s))", ri, len(e), compact(e)))
 			}
 		}
 
@@ -653,8 +669,12 @@ func main() {
 		{"segment-remainder+1", 2, [][]int{{100}, {2*F - 100 - hdr + 1}, {1}}},
 		{"batch-unflushed-crossing", 2, [][]int{{F - 40, 10, 10, 10, 10}, {5}}},
 	}
-	for _, c := range corpus {
+	for li, c := range corpus {
 		for ci, ct := range compression.Types() {
+			if f.Tier != "thorough" && (li+int(f.Seed))%3 != ci {
+				idx++
+				continue
+			}
 			runCase(idx, caseSpec{compr: ct, pps: c.pps, close: ci == 1, cutMod: (idx + ci) % 5, fixed: c.b, isFixed: true, corpus: c.name})
 			idx++
 		}
@@ -664,7 +684,7 @@ func main() {
 	idx++
 
 	// ---- generated logs
-	n := f.Count(150, 3000)
+	n := f.Count(45, 1200)
 	for i := 0; i < n; i++ {
 		r := gen.Fork(f.Seed, 1000000+i)
 		cs := caseSpec{
@@ -672,6 +692,12 @@ func main() {
 			pps:    1 + r.Intn(4),
 			close:  r.Chance(1, 3),
 			cutMod: r.Intn(6),
+			small:  r.Chance(1, 3),
+		}
+		if r.Chance(1, 8) { // occasionally a larger log
+			budget, cs.small = 150*1024, false
+		} else if f.Tier != "thorough" {
+			budget = 70 * 1024
 		}
 		runCase(idx, cs)
 		idx++
